@@ -559,6 +559,12 @@ def features_layer(env):
                 for ln in out.splitlines():
                     parts = ln.split()
                     kind, dig, cnt = parts[0], parts[1], parts[2]
+                    if kind == "resolve-io-errors":
+                        # std only: same virtual file system, absent files reported as std::io::Error values of
+                        # several kinds - joins the group of the plain resolution digests
+                        digests.setdefault(("resolve", seed), {})[name + "+io-errors"] = dig
+                        counts += int(cnt)
+                        continue
                     digests.setdefault((kind, seed), {})[name] = dig
                     counts += int(cnt)
                     if kind == "cases":
@@ -575,7 +581,7 @@ def features_layer(env):
             raise LayerInconclusive("no generated case was replayed")
         samples = [{"workload": k[0], "seed": k[1], "digests": v} for k, v in sorted(digests.items())][:6]
         return {"name": "feature-matrix", "profile": "release", "evaluations": counts, "distinct_nontrivial": len(digests) * 3, "counts_distinct": True, "violations": violations, "replay_spec": None,
-                "rule": "cases = (feature set, workload, seed): the crate is built with no features, `alloc`, `std`; the core workload (borrowed zones, date-time construction, lookup, find_n, formatting into a fixed buffer; %d iterations x 2 seeds) the alloc workload (owned zones, TZif and TZ-string parsing, allocating search) and a replay of zones + queries generated by the harness' own generators (every zone shape, tie rules, IANA rules, leap tables; lookups, from_timespec, project, find_n with buffers of 4 / 1 / 0 slots) are run against each build and their result digests compared. distinct_nontrivial = (workload, seed, feature set) triples whose digest was compared." % n,
+                "rule": "cases = (feature set, workload, seed): the crate is built with no features, `alloc`, `std`; the core workload (borrowed zones, date-time construction, lookup, find_n, formatting into a fixed buffer; %d iterations x 2 seeds) the alloc workload (owned zones, TZif and TZ-string parsing, allocating search) and a replay of zones + queries generated by the harness' own generators (every zone shape, tie rules, IANA rules, leap tables; lookups, from_timespec, project, find_n with buffers of 4 / 1 / 0 slots), and TZ value resolution (30 values x 12 directory-list shapes, a reader sensitive to the exact path string; in the std build also with absent files reported as std::io::Error values of six kinds) are run against each build and their result digests compared. distinct_nontrivial = (workload, seed, feature set) triples whose digest was compared." % n,
                 "extra": {"builds": builds, "generated_cases_replayed_per_build": cases_replayed, "digests": {"%s/%d" % k: v for k, v in digests.items()}}, "samples": samples, "inconclusive": [] if counts else ["no workload was executed"]}
     return f
 
